@@ -1,4 +1,5 @@
 """C09 — Walking a port tree enumerates exactly its dispatchable addresses."""
+import functools
 import itertools
 import os
 import re
@@ -119,8 +120,9 @@ class WName:
     __slots__ = ("head", "parts", "slash", "types")
 
 
+@functools.lru_cache(maxsize=4096)
 def parse_name(name):
-    """head #N text … ['/'] [:types]  ->  WName, or None if the name has no such reading"""
+    """head #N text … ['/'] [:types]  ->  WName (not to be modified: cached)"""
     w = WName()
     body, sep, ty = name.partition(b":")
     w.types = ty.split(b":") if sep else None
@@ -282,13 +284,13 @@ TYPES = [b"", b"", b"", b":i", b"::i", b":s:", b"::T:F", b":", b":f:i"]
 def rand_num(rng, is_sub=True):
     """N of an enumeration: small, two digits, three digits (zynaddsubfx has #128 arrays); a leaf may have N = 0"""
     r = rng.random()
-    if r < 0.76:
+    if r < 0.78:
         return rng.randint(1, 3)
-    if r < 0.88:
+    if r < 0.90:
         return rng.randint(10, 12)
-    if r < 0.93:
+    if r < 0.92:
         return rng.choice([100, 101, 128, 130])
-    if r < 0.95 and not is_sub:
+    if r < 0.94 and not is_sub:
         return 0
     return rng.choice([4, 5, 1, 1])
 
@@ -376,7 +378,7 @@ SPARE = 32
 def gen_static(rng, tier, stats):
     st = stats.setdefault("static", {"trees": 0, "messy": 0, "empty_prefix": 0, "k1_trees": 0, "three_digit_trees": 0,
                                      "depth_hist": {}, "calls_hist": {}})
-    ntrees = 8000 if tier == "quick" else 110000
+    ntrees = 7200 if tier == "quick" else 100000
     for _ in range(ntrees):
         depth = rng.choice([1, 2, 2, 3, 3, 4])
         messy = rng.random() < 0.2
@@ -424,6 +426,13 @@ def compiled_trees():
         _COMPILED = [l[2:] for l in out.split("\n") if l.startswith("T [")]
         assert len(_COMPILED) == NTREES, out
     return _COMPILED
+
+
+@functools.lru_cache(maxsize=16)
+def compiled_table(ts):
+    """(tree, need) of a compiled tree's text (not to be modified: cached)"""
+    t = parse_tree(ts)
+    return t, need(t)
 
 
 def meta_entries(block):
@@ -617,16 +626,17 @@ def gen_runtime(rng, tier, stats):
     trees = compiled_trees()
     tables = [parse_tree(ts) for ts in trees]
     needs = [need(t) for t in tables]
-    n = 2600 if tier == "quick" else 36000
+    n = 2400 if tier == "quick" else 33000
     for _ in range(n):
         tid = rng.choice([0, 0, 0, 1, 1, 1, 2, 2, 3, 3])
         ts, table = trees[tid], tables[tid]
         obj = rand_obj(rng, table, st)
         r = rng.random()
-        if r < 0.15:
+        if r < 0.1:
             # the table sits deep in an application: addresses of 250..990 characters (walk_ports_recurse works on a
-            # copy in char[1024])
-            total = rng.choice([250, 256, 257, 300, 511, 512, 700, 900, 985 - needs[tid], rng.randint(250, 985 - needs[tid])])
+            # copy in char[1024]); mostly just above 256 (C18's model of collapsePath is quadratic in the length)
+            total = rng.choice([250, 256, 257, 258, 272, 273, 300, 330, rng.randint(250, 340), rng.randint(250, 340),
+                                511, 512, 900, 985 - needs[tid], rng.randint(340, 985 - needs[tid])])
             comps = []
             left = total - 1
             while left > 0:
@@ -661,9 +671,15 @@ def gen_runtime(rng, tier, stats):
 
 
 def generate(rng, tier, stats):
-    for g in (gen_static(rng, tier, stats), gen_runtime(rng, tier, stats)):
-        for op in g:
-            yield op
+    # W and R cases interleaved (the runner splits the op list into contiguous chunks for the model)
+    gw, gr = gen_static(rng, tier, stats), gen_runtime(rng, tier, stats)
+    live = True
+    while live:
+        live = False
+        for g, k in ((gw, 3), (gr, 1)):
+            for op in itertools.islice(g, k):
+                live = True
+                yield op
 
 
 def nontrivial(op):
@@ -713,10 +729,13 @@ def check_calls(got, must, allowed, prefix, mode_fn):
         return "walk: %d pairs reported, %d expected; %s" % (len(calls), len(must), "; ".join(what))
     if b != hx(prefix):
         return "buffer afterwards holds %s, expected the prefix %s" % (b, hx(prefix))
+    modes = {}
     for ix, a, d in calls:
         if d is None:
             return "no dispatch result for %s" % ix
-        mode = mode_fn(tuple(int(x) for x in ix.split(".")))
+        mode = modes.get(ix)
+        if mode is None:
+            mode = modes[ix] = mode_fn(tuple(int(x) for x in ix.split(".")))
         if mode == "strict":
             if d != [ix]:
                 return "dispatch of %s reaches %s, expected exactly the reported port %s" % (a.decode("latin1"), d or "no port", ix)
@@ -762,14 +781,14 @@ def oracle(op, out):
         want = enumerate_tree(tree, eff)
         return check_calls(got, want, [], eff, (lambda ix: disp_mode(tree, ix)) if strict else (lambda ix: "skip"))
     # runtime
-    table = parse_tree(w[2])
+    table, table_need = compiled_table(w[2])
     obj = parse_obj(w[3])
     buf = unhx(w[4])
     prefix = buf[:buf.index(0)]
     eff = prefix or b"/"
     if not prefix and (len(buf) < 2 or buf[1] != 0):
         return None
-    if len(buf) < len(eff) + need(table) + 1:
+    if len(buf) < len(eff) + table_need + 1:
         return None
     must, opn = pruned(table, obj, eff)
     size, dropped = op_tokens(w[5:])
